@@ -249,6 +249,28 @@ theorem compound_assignment_reads_target_first (fns : List FnDef) (n : Nat) (env
   simp only [evalExpr, hop, hx, bind_eq, R.bind_yields h, hv, hu]
   simp [R.yields, pure_eq, R.ok]
 
+/-- The same when the target is a field of a record variable (`x.f op= e`): the field is
+    read before the right-hand side runs — the stored value is `old x.f op rhs` even when the
+    right-hand side assigns `x.f`, or `x` as a whole — and it is stored into the record `x`
+    holds after the right-hand side ran. -/
+theorem compound_assignment_to_field_reads_target_first (fns : List FnDef) (n : Nat) (env env' env'' : Env)
+    (op : BinOp) (x i : Nat) (e : Expr) (t : Trace) (a k : Int) (b : Val)
+    (hop : op.isArith = true) (hx : getField env x i = some a)
+    (h : (evalExpr fns n env e).yields t (env', b))
+    (hv : binop op (.int a) b = some (.int k)) (hu : setField env' x i k = some env'') :
+    (evalExpr fns (n + 1) env (.cassignF op x i e)).yields t (env'', .unit) := by
+  simp only [evalExpr, hop, hx, bind_eq, R.bind_yields h, hv, hu]
+  simp [R.yields, pure_eq, R.ok]
+
+/-- An assignment to a field evaluates its right-hand side, then replaces that field of the
+    record the variable holds at that point; it makes no call of its own. -/
+theorem field_assignment_after_rhs (fns : List FnDef) (n : Nat) (env env' env'' : Env)
+    (x i : Nat) (e : Expr) (t : Trace) (k : Int)
+    (h : (evalExpr fns n env e).yields t (env', .int k)) (hu : setField env' x i k = some env'') :
+    (evalExpr fns (n + 1) env (.assignF x i e)).yields t (env'', .unit) := by
+  simp only [evalExpr, bind_eq, R.bind_yields h, hu]
+  simp [R.yields, pure_eq, R.ok]
+
 /-- `match`: the arms are tried top to bottom. An arm whose pattern is not the
     value's variant is skipped *without evaluating its guard*. -/
 theorem guard_of_unmatched_pattern_not_run (fns : List FnDef) (n : Nat) (env : Env) (v : Val)
@@ -600,6 +622,19 @@ def demoFn2 : FnDef :=
 example : (lowerFn demoFn2).isSome = true := by decide
 example : bodyValue (evalBlock [] 40 [(0, .int 5)] demoFn2.body).out = some (.int 1) := by decide
 example : ((evalBlock [] 40 [(0, .int 5)] demoFn2.body).tr).length = 4 := by decide
+-- `x0.c += { x0.c = 100; emit(1, 1) }` on `x0 = {b: 1, c: 2, a: 3}`: the old `c` (2) is read first → c = 3;
+-- `x0.b -= { x0 = {b: 7, c: 8, a: 9}; 1 }`: old `b` (1) minus 1, stored into the NEW record → {0, 8, 9}
+example : (evalExpr [] 9 [(0, .recd [1, 2, 3])] (.cassignF .add 0 1 (.block (.stmt (.assignF 0 1 (.lit (.int 100))) (.last (emitI 1 1)))))).yields
+    [⟨0, [.int 1, .int 1]⟩] ([(0, .recd [1, 3, 3])], .unit) := by decide
+example : (evalExpr [] 20 [(0, .recd [1, 2, 3])] (.cassignF .sub 0 0 (.block (.stmt (.assign 0 (.record [0, 1, 2] (.cons (.lit (.int 7)) (.cons (.lit (.int 8)) (.cons (.lit (.int 9)) .nil))))) (.last (.lit (.int 1))))))).yields
+    [] ([(0, .recd [0, 8, 9])], .unit) := by decide
+example : (evalExpr [] 9 [(0, .recd [1, 2, 3])] (.assignF 0 2 (emitI 1 5))).yields [⟨0, [.int 1, .int 5]⟩] ([(0, .recd [1, 2, 5])], .unit) := by decide
+def demoFnF : FnDef :=
+  ⟨[0], .let_ 1 (.record [1, 0, 2] (.cons (.var 0) (.cons (.lit (.int 2)) (.cons (.lit (.int 3)) .nil))))
+    (.stmt (.cassignF .add 1 1 (.block (.stmt (.assignF 1 1 (.lit (.int 100))) (.last (emitI 1 1)))))
+    (.last (.field (.var 1) 1)))⟩
+example : (lowerFn demoFnF).isSome = true := by decide
+example : bodyValue (evalBlock [] 40 [(0, .int 4)] demoFnF.body).out = some (.int 5) := by decide
 -- … with `?`, `Some`, `accept`/`reject`: `{ let x1 = emit_o(1, x0)?; if emit_b(2, x1 == 4) { reject emit(3, x1); }; accept emit(4, x1) }`
 def demoFn3 : FnDef :=
   ⟨[0], .let_ 1 (.try (.host 4 (.cons (.lit (.int 1)) (.cons (.var 0) .nil))))
